@@ -204,9 +204,55 @@ def r4_float_int_casts(ctx, F):
     ctx.floor("C10.R4", "float<->int casts in the number code", n, 9, inventory=True)
 
 
+def r5_small_remainder_guarded(ctx, F):
+    """`%` on the 32-bit inline representation panics for (MIN, -1) ("attempt to calculate the remainder with
+    overflow") in every build profile. Each use of `InlineInt % InlineInt` is therefore reached only after a test that
+    rules that pair out: either an explicit comparison with MIN / -1, or a sign test (the pair has equal signs, so a
+    remainder taken only when the signs differ never sees it)."""
+    from kern import bool_call_edges, bool_local_edges, origins
+    n = 0
+    for f in F.fns.values():
+        if f.crate != "starlark":
+            continue
+        rems = [c for c in f.calls if c.bb not in f.cleanup and re.search(
+            r"<values::types::int::inline_int::InlineInt as std::ops::(Rem|Div)>::(rem|div)$", c.name)]
+        if not rems or re.search(r"inline_int::InlineInt", f.qpath):
+            continue
+        guards = set()
+        for st in f.stmts:
+            if not re.match(r"binop (Lt|Le|Gt|Ge|Eq|Ne)$", st.kind) or st.bb in f.cleanup:
+                continue
+            srcs = set()
+            for op in st.ops[0].split(" , "):
+                for o in origins(f, op, pass_calls=None):
+                    if o[0] == "call":
+                        srcs.add(o[1].name)
+            if any(re.search(r"::signum(_big)?$", x) for x in srcs):
+                guards |= set(bool_local_edges(f, st.lhs, "true")) | set(bool_local_edges(f, st.lhs, "false"))
+        for c in f.calls:
+            if c.bb in f.cleanup or not re.search(r"PartialEq<i32>>::(eq|ne)$", c.name):
+                continue
+            # a comparison of the DIVIDEND (first parameter) with a constant: the divisor-is-zero test does not count,
+            # the constants themselves are promoted and not visible in the facts
+            if any(o == ("param", "_1") for o in origins(f, c.args[0], pass_calls=None)):
+                guards |= set(bool_call_edges(F, f, c, "true")) | set(bool_call_edges(F, f, c, "false"))
+        for c in rems:
+            n += 1
+            # the guarding test has been evaluated on every path to the operation (for `!(a == MIN && b == -1)` no
+            # single edge dominates, the test block does)
+            ctx.check(any(f.dominates(e[0], c.bb) and e[0] != c.bb for e in guards), "C10.R5",
+                      "small-%s-guarded:%s" % (c.name.split("::")[-1], short_fn(f.qpath)),
+                      "the operation is reached only after a sign test or an explicit MIN / -1 test",
+                      "`%s` evaluates `InlineInt %s InlineInt` without first ruling out (MIN, -1): that pair panics "
+                      "(remainder/division overflow) instead of promoting to a big integer"
+                      % (short_fn(f.qpath), "%" if c.name.endswith("rem") else "/"), fn=f, line=c.line)
+    ctx.floor("C10.R5", "uses of the panicking small-int % and /", n, 2)
+
+
 def run(ctx):
     F = ctx.facts("core")
     r4_float_int_casts(ctx, F)
+    r5_small_remainder_guarded(ctx, F)
     r1_canonical(ctx, F)
     r2_checked(ctx, F)
     r3_narrowing(ctx, F)
